@@ -25,6 +25,14 @@ members cancel / delete legitimately; D and A create / close / reopen billing pr
 membership of bp1 itself changes during the run and the expectation is recomputed from the database for every
 request).  Intruder tasks pick (identity, route, target batch / job / group / update, body) at seeded instants.
 
+Revocation: in half of the runs a valid member V polls routes it may use at gaps shorter than the lifetime of
+gear.auth's userdata cache (read from the real cache object); at a seeded instant the auth service deactivates V /
+deletes it / invalidates its session.  Requests SENT later than lifetime + 2 s after that must be refused and change
+nothing (role `revoked`); earlier ones are unjudged (the cache may be stale for its lifetime).  Near misses of the
+service identity: active non-developers named 'a', 'au', 'aut', 'th', 'uth', 'h', 'u', 'ut', 'authx', 'xauth' (and
+'AUTH', 'Auth' if auth.auth_utils.is_valid_username accepted them; it does not) act as role `lookalike_of_auth`,
+mostly on the bp_admin routes.
+
 Oracle for a (identity, route, target) the property refuses: EVERY response the server produced for that request
 (also for network-duplicated deliveries) is an error status or a redirect to the login page, and -- legitimate
 traffic is held back by a gate and the network is drained around the request -- the digest over ALL database tables
@@ -55,6 +63,7 @@ import json
 import re
 
 from simkit.core import Violation
+from worlds.batch import env as benv
 from worlds.batch.net import make_httpx_session
 from worlds.batch.world import BatchWorld, SimCreds, User
 from worlds.common import simulate
@@ -65,7 +74,8 @@ WALL_LIMIT = 120
 RULE = ('owner workload of 4-12 steps over <= 6 batches (open update / running with groups / cancelled / zero-job or '
         'marked complete / deleted), 2-3 intruder tasks x 4-12 requests each drawn from (9 identities) x (every route of '
         'front_end.routes) x (real or nonexistent batch / job / group / update ids) x (Bearer | session cookie), 1 in 4 '
-        'always-forbidden requests ungated (concurrent with the owner); optional request duplication / response loss, '
+        'always-forbidden requests ungated (concurrent with the owner); in 1 run of 2 a member that polls at gaps of 0.1-0.8 '
+        'cache lifetimes is revoked (inactive | session invalidated | deleted) and judged from lifetime + 2 s on; optional request duplication / response loss, '
         'auth-service outages and transient auth errors; non-trivial run = a forbidden request was checked against a '
         'batch past its creation state (or a fault fired)')
 COMPONENTS = {
@@ -95,6 +105,7 @@ OWNER_WRITE_RE = re.compile(r'/(jobs/create|job-groups/create|updates/create|upd
 AUTHENTICATED_RE = re.compile(r'^/api/v\d+alpha/(batches(/completed|/create|/create-fast)?|supported_regions|default_region'
                               r'|billing_projects(/\{billing_project\})?)$|^/?$|^/(batches|billing|billing_limits|billing_projects)$')
 ALWAYS_REFUSED = ('unauthenticated', 'garbage_token', 'inactive', 'deleted_user')
+LOOKALIKES = ('a', 'au', 'aut', 'th', 'uth', 'h', 'u', 'ut', 'authx', 'xauth', 'AUTH', 'Auth')
 
 
 def classify(method, path):
@@ -194,7 +205,19 @@ def run(ctx):
     X = User(5, 'deleted', state='deleted', projects=['bp1'])
     D = User(6, 'dev', is_developer=True, projects=['bp2'])
     A = User(7, 'auth', projects=[])
-    users = [O, M, N, I, X, D, A]
+    V = User(8, 'victim', projects=['bp1'])  # valid member of bp1 until it is revoked mid-run
+    # active non-developers whose names are near misses of the service identity `auth` (those the repository's own
+    # username validation accepts)
+    benv.setup()
+    try:
+        from auth.auth_utils import is_valid_username
+    except Exception:  # pylint: disable=broad-except
+        ctx.probe('username_validation_unavailable')
+
+        def is_valid_username(name):
+            return bool(re.fullmatch(r'[A-Za-z0-9]+(-[A-Za-z0-9]+)*', name))
+    lookalikes = [User(20 + i, name, projects=[]) for i, name in enumerate(LOOKALIKES) if is_valid_username(name)]
+    users = [O, M, N, I, X, D, A, V] + lookalikes
     w = BatchWorld(ctx, n_tokens=(1, 3, 200)[cfg.draw(3)], users=users, with_driver=False)
     token_replay = bool(ctx.params.get('token_replay', True))
     idents = {
@@ -206,6 +229,10 @@ def run(ctx):
     IDENT_ORDER = ['unauthenticated', 'garbage_token', 'inactive', 'non_member', 'member', 'developer', 'deleted_user',
                    'auth_service', 'owner']
     IDENT_WEIGHTS = [3, 3, 3, 4, 4, 3, 1, 2, 2]
+    if lookalikes:
+        IDENT_ORDER.append('lookalike_of_auth')
+        IDENT_WEIGHTS.append(3)
+    revoked_tokens = set()
     st = {'commits': 0, 'commit_tables': [], 'req': 0, 'tok': 0, 'stop': False, 'fs_inflight': 0, 'conc': 0, 'conc_epoch': 0}
     served = {}
     unclassified = []
@@ -282,7 +309,7 @@ def run(ctx):
             if auth_plan['transient'] and s_auth.chance(auth_plan['transient']):
                 ctx.fault('auth.transient_error')
                 return (500, 503)[s_auth.draw(2)], 'Error', {}, b''
-            if u is not None and u.state not in ('active', 'inactive'):
+            if u is not None and (u.state not in ('active', 'inactive') or u.token in revoked_tokens):
                 return 401, 'Unauthorized', {}, b''
             return await a_orig(method, path_qs, headers, body)
         asvc.handler = auth_handler
@@ -533,9 +560,16 @@ def run(ctx):
 
         # ---- one request of an intruder task -----------------------------------------------------------------
         async def intruder_request(actor, s):
-            ident = idents[IDENT_ORDER[s.weighted(IDENT_WEIGHTS)]]
+            kind = IDENT_ORDER[s.weighted(IDENT_WEIGHTS)]
+            if kind == 'lookalike_of_auth':
+                ident = Ident(kind, lookalikes[s.draw(len(lookalikes))])
+            else:
+                ident = idents[kind]
             pool = checked
-            if ident.kind in ('owner', 'member'):
+            if kind == 'lookalike_of_auth':
+                if s.draw(3) != 2:
+                    pool = [r for r in checked if r[2] == 'bp_admin'] or checked
+            elif ident.kind in ('owner', 'member'):
                 # mostly the routes that are refused to them
                 if s.draw(2) == 0:
                     pool = [r for r in checked if r[2] in ('owner_write', 'bp_admin')] or checked
@@ -575,6 +609,8 @@ def run(ctx):
             async with gate:
                 quiet = await quiesce()
                 path, bid, exp, role, body, form, tag, headers, how, lc = await attempt()
+                if kind == 'lookalike_of_auth':
+                    ctx.probe('lookalike_request')
                 before = snapshot(w) if quiet else None
                 c0 = st['commits']
                 epoch0 = st['conc_epoch']
@@ -644,6 +680,84 @@ def run(ctx):
             ctx.probe(f'refused:{role}:{label}')
             if any(a[1] and str(a[1]).startswith(login_url) for a in answers):
                 ctx.probe('ui_login_redirect')
+
+        # ---- revocation during the run ------------------------------------------------------------------------
+        async def victim():
+            """V polls routes it is permitted to use at gaps shorter than the lifetime of gear.auth's userdata cache; at a
+            seeded instant the auth service revokes it.  The cache may serve the stale answer for its lifetime; a
+            request SENT later than lifetime + margin after the revocation must be refused and change nothing."""
+            s = ctx.stream('victim')
+            lifetime = fe.auth._userdata_cache.lifetime_ns / 1e9
+            margin = 2.0
+            vident = Ident('revoked', V)
+            pool = [r for r in checked if r[0] == 'GET' and r[2] in ('authenticated', 'batch_read')]
+            proven = []
+            await first_step.wait()
+            n_before = s.rint(2, 6)
+            t_rev = None
+            i = 0
+            while pool:
+                gap = lifetime * s.rint(1, 8) / 10  # always shorter than the cache lifetime
+                if t_rev is not None or i < n_before:
+                    await asyncio.sleep(gap)
+                else:
+                    k = s.rint(0, 9)
+                    await asyncio.sleep(gap * k / 10)
+                    mode = ('inactive', 'session_invalidated', 'deleted')[s.draw(3)]
+                    if mode == 'inactive':
+                        V.state = 'inactive'
+                    elif mode == 'deleted':
+                        V.state = 'deleted'
+                    else:
+                        revoked_tokens.add(V.token)
+                    t_rev = loop.time()
+                    ctx.probe('revocation')
+                    log.add('auth', 'revoke', mode)
+                    await asyncio.sleep(gap * (10 - k) / 10)
+                if t_rev is not None:
+                    if not proven or loop.time() > t_rev + 2.6 * lifetime + margin:
+                        break
+                    method, tpath, cls, ui = proven[s.draw(len(proven))]
+                else:
+                    method, tpath, cls, ui = pool[s.draw(len(pool))]
+                label = ('ui_' if ui else '') + cls
+                i += 1
+                async with gate:
+                    quiet = await quiesce()
+                    path, bid, _vals = fill(tpath, s, vident)
+                    headers, _f, how = auth_headers(vident, s, ui, method)
+                    lc = lifecycle(bid) if bid is not None else None
+                    t_send = loop.time()
+                    judged = t_rev is not None and t_send > t_rev + lifetime + margin
+                    before = snapshot(w) if (quiet and judged) else None
+                    c0 = st['commits']
+                    epoch0 = st['conc_epoch']
+                    st['commit_tables'] = []
+                    phase = 'judged' if judged else ('stale_ok' if t_rev is not None else 'valid')
+                    log.add('victim', 'send', label, how, phase)
+                    status, _js, loc, rid = await send('victim', method, path, headers)
+                    quiet2 = await quiesce()
+                    answers = list(served.get(rid, []))
+                    log.add('victim', 'answer', label, str(status), tuple(str(a[0]) for a in answers))
+                    if t_rev is None:
+                        if status != 'unsupported' and answers and not any(refused(a[0], a[1]) for a in answers) \
+                                and (method, tpath, cls, ui) not in proven:
+                            proven.append((method, tpath, cls, ui))
+                        elif status == 'unsupported' and (method, tpath, cls, ui) in pool:
+                            pool.remove((method, tpath, cls, ui))
+                        continue
+                    ctx.probe('revoked_polling_request')
+                    if not judged or status == 'unsupported':
+                        continue
+                    after = snapshot(w) if (before is not None and quiet2) else None
+                    ncommits = st['commits'] - c0
+                    tables = list(st['commit_tables'])
+                    if after is None or st['conc_epoch'] != epoch0:
+                        before = after = None
+                        ncommits = 0
+                    judge('revoked', label, method, tpath, '', 'forbidden', status, loc, answers, before, after, ncommits,
+                          tables, lc, how)
+                    ctx.probe('revoked_refused')
 
         async def intruder(idx):
             s = ctx.stream(f'intruder{idx}')
@@ -815,6 +929,8 @@ def run(ctx):
             w.net.rates.update({k: 0.08 for k in ('duplicate', 'drop_response') if plan.draw(2) == 0})
         tasks = [asyncio.create_task(owner(), name='owner')]
         tasks += [asyncio.create_task(intruder(i), name=f'intruder{i}') for i in range(2 + cfg.draw(2))]
+        if cfg.draw(2) == 1:
+            tasks.append(asyncio.create_task(victim(), name='victim'))
         side = []
         if plan.draw(4) == 1:
             side.append(asyncio.create_task(auth_outages(), name='auth_outages'))
